@@ -19,7 +19,9 @@
   2. sweeps:  `orthogonalize_canonical` (from ANY chain whose declared centre — if any — is true: after
      `orthogonalize(k)` factors `0..k−1` are left isometries, `k+1..n−1` right isometries), `orthogonalize_amp_norm`
      (the state is unchanged and ‖ψ‖² = ‖factor k‖_F²), `canonical_norm` (mixed-canonical ⇒ `inner(self,self)` =
-     Σ_s |amp s|² = ‖centre‖_F²: the concrete counterpart of `norm_eq_centre_norm`), `truncate_canonical`
+     Σ_s |amp s|² = ‖centre‖_F²: the concrete counterpart of `norm_eq_centre_norm`), `canonical_is_isometry_chain`
+     (the prefix / tail of a canonical factor list ARE a `LeftChain` / `RightChain`, so `norm_eq_centre_norm`
+     itself applies and gives the same `frobSite`), `truncate_canonical`
      (`truncate()` leaves the chain canonical around the centre it declares, 0), `truncate_bonds_within_cap`
      (kept ranks from `Cutoff.sweepBonds` ⇒ every new bond is in `[1, max_bond_dim]`).
   3. histories:  `step_bridge`, `history_bridge` (the tensor machine refines the flag machine: along every
@@ -40,6 +42,7 @@ import EmuVerif.Props.C10
 import EmuVerif.Props.C11
 import EmuVerif.Proofs.CanonBridgeHist
 import EmuVerif.Proofs.CanonBridgeMatrix
+import EmuVerif.Proofs.CanonBridgeChain
 
 set_option linter.unusedSectionVars false
 set_option linter.unusedVariables false
@@ -157,6 +160,25 @@ theorem canonical_norm (d : Nat) (fs : List (Site K)) (c : Nat) (C : Site K) (hv
   have h2 := Props.C11.inner_eq_dense d fs fs hv hv rfl
   rw [h1] at h2
   exact (Option.some.inj h2).symm
+
+/-- **`Props.C10.norm_eq_centre_norm` applies to an actual factor list in canonical form.**  The factors left of
+the centre form an `Isometry.LeftChain` `U`, those right of it an `Isometry.RightChain` `V` (bundled, with the
+enumerations that tie their bond index types to the `Nat`-indexed factors, in `LChain` / `RChain`); with the
+centre factor as the matrix `centreMat`, theorem E of `Props/C10.lean` gives `‖(U ⊗ 1)·C·V‖_F² = ‖C‖_F²`, and
+`‖C‖_F²` is `frobSite` of the centre factor. -/
+theorem canonical_is_isometry_chain (d : Nat) (fs : List (Site K)) (c : Nat) (C : Site K)
+    (hv : validChain d fs = true) (hcan : Canonical fs c) (hC : fs[c]? = some C) :
+    ∃ (lc : LChain K d C.dl) (rc : RChain K d C.dr),
+      Isometry.frob2 (Isometry.kronOne (Fin d) lc.U * centreMat lc.e rc.e C d * rc.V)
+          = Isometry.frob2 (centreMat lc.e rc.e C d) ∧
+        Isometry.frob2 (centreMat lc.e rc.e C d) = frobSite C := by
+  obtain ⟨_, _, hw, h1, hd⟩ := validChain_spec d fs hv
+  obtain ⟨hsplit, hL, hR⟩ := canonical_split fs c C hcan hC
+  obtain ⟨lc, rc, _⟩ := canonical_chains d (fs.take c) C (fs.drop (c + 1)) hL hR (by rw [← hsplit]; exact hw)
+    (by rw [← hsplit]; exact h1) (by rw [← hsplit]; exact hd)
+  refine ⟨lc, rc, Props.C10.norm_eq_centre_norm lc.chain rc.chain _, ?_⟩
+  rw [frobSite_eq]
+  exact frob2_centreMat lc.e rc.e C d lc.enum rc.enum (hd C (List.mem_of_getElem? hC))
 
 /-- **`orthogonalize(k)` from any valid chain**: the represented state is unchanged and its squared norm is the
 squared Frobenius norm of factor `k`. -/
